@@ -60,3 +60,19 @@ Example ex_absent :
   | _ => False
   end.
 Proof. vm_compute. repeat split; reflexivity. Qed.
+
+(* RECORDED FINDING (known_findings.txt, history hit_for_pass): the documented machine keeps a hit-for-pass
+   object when vcl_fetch ends with return(pass), so that the next lookup of that hash goes to vcl_pass.  The
+   simulator (and therefore the faithful model) has no such object: the second request runs vcl_miss. *)
+Lemma hit_for_pass_refuted :
+  exists orc1 orc2 q rs p,
+    orc1 Fetch 0 = ARet SPass /\
+    run_history [(orc1, q); (orc2, q)] init = OK (rs, p) /\
+    match rs with
+    | [_; r2] => existsb (scope_eqb Miss) (r_flows r2) = true /\ existsb (scope_eqb Pass) (r_flows r2) = false
+    | _ => False
+    end.
+Proof.
+  exists (fun sc _ => match sc with Fetch => ARet SPass | _ => ANone end), plain, (ex_request 1000).
+  eexists. eexists. split; [reflexivity|]. split; [vm_compute; reflexivity|]. vm_compute. split; reflexivity.
+Qed.
